@@ -2332,9 +2332,19 @@ impl<'ctxt, R: ImportResolver, C: Cache> VirtualMachine<'ctxt, R, C> {
                             ))
                         })?;
 
-                    let closurized = value_closure
-                        .value
-                        .closurize(&mut self.context.cache, value_closure.env);
+                    // The value of a dynamically named field of a recursive record arrives here
+                    // as the thunk that the evaluation of the record literal has built and patched
+                    // with the recursive environment. It must be stored as it is: `closurize` would
+                    // wrap a thunk that has dependencies in a new standard thunk, hiding the
+                    // revertible thunk from a later merge, and the field wouldn't be recomputed
+                    // when one of the fields it depends on is overridden.
+                    let closurized = if value_closure.value.as_thunk().is_some() {
+                        value_closure.value
+                    } else {
+                        value_closure
+                            .value
+                            .closurize(&mut self.context.cache, value_closure.env)
+                    };
                     Some(closurized)
                 } else {
                     None
